@@ -186,3 +186,65 @@ where
     let st = *steps.lock().unwrap();
     HistStats { histories: histories.len() as u64, steps: st }
 }
+
+fn parse_op(j: &serde_json::Value) -> Option<TOp> {
+    if let Some(p) = j.get("predict") {
+        return Some(TOp::Predict(p["scene"].as_u64()?, p["list"].as_u64()? as usize));
+    }
+    if let Some(p) = j.get("skip") {
+        return Some(TOp::Skip(p["scene"].as_u64()?, p["n"].as_u64()? as usize));
+    }
+    if let Some(p) = j.get("set_auto_waste") {
+        return Some(TOp::SetAutoWaste(p.as_u64()? as usize));
+    }
+    match j.as_str()? {
+        "wasted" => Some(TOp::Wasted),
+        "clear_wasted" => Some(TOp::ClearWasted),
+        _ => None,
+    }
+}
+
+/// `./check <ID> quick --replay <file>` for the history-based checks: re-run the one recorded history
+/// with the property's monitor and print every step.
+pub fn replay<M, F>(id: &str, file: &serde_json::Value, lists: &[Vec<Det>], mk: F) -> i32
+where
+    M: Monitor,
+    F: Fn(&TrkCfg) -> M + Send + Sync + Clone + 'static,
+{
+    let r = &file["replay"];
+    let Some(cfg) = TrkCfg::from_json(&r["config"]) else { machinery_error("replay file: cannot parse the tracker configuration") };
+    let ops: Vec<TOp> = match r["history"].as_array() {
+        Some(a) => a.iter().filter_map(parse_op).collect(),
+        None => machinery_error("replay file: no history"),
+    };
+    println!("config {}", r["config"]);
+    let lists2 = lists.to_vec();
+    let id2 = id.to_string();
+    let res = in_shuttle(move || {
+        let mut trk = Guarded::new(AnyTrk::new(&cfg));
+        let mut mon = mk(&cfg);
+        let mut lines = vec![];
+        for (k, op) in ops.iter().enumerate() {
+            let out = apply(&mut trk, op, &lists2);
+            lines.push(format!("step {k}: {op:?} -> {}", format!("{out:?}").chars().take(400).collect::<String>()));
+            if let Err((key, what)) = mon.step(&mut trk, op, &out, &lists2) {
+                lines.push(format!("VIOLATION property={id2} replay=(replayed) {key}: {what}"));
+                return (lines, 1);
+            }
+        }
+        lines.push("the recorded history no longer violates the property".to_string());
+        (lines, 0)
+    });
+    match res {
+        Ok((lines, rc)) => {
+            for l in lines {
+                println!("{l}");
+            }
+            rc
+        }
+        Err(e) => {
+            println!("VIOLATION property={id} replay=(replayed) {e}");
+            1
+        }
+    }
+}
